@@ -27,7 +27,8 @@ RULE = ("Case = (i) cyclic network of 2-6 FuncBlocks from {not, id, xor, and, or
         "Inputs and 1-3 bursts toggling the inputs, or (ii) a chain of 0-3 identity blocks ending in an "
         "(inverting or non-inverting) block whose on_output event puts its value back into the Input, or "
         "(iii) an acyclic DAG of 2-12 summing blocks with reconvergence whose total number of source-to-block "
-        "paths is <= 3 x #blocks (edges pruned otherwise) driven by 4 bursts changing all sources. "
+        "paths is <= 3 x #blocks (edges pruned otherwise) driven by 4 bursts changing all sources, some of them "
+        "up to 3 x #blocks + 2 times in a row before the simulator runs. "
         "Instrumented functions count evaluations per burst. Non-trivial = (i)/(ii): at least one phase without "
         "any consistent assignment (error required) or a phase where the cyclic network settled; "
         "(iii): path total > #blocks (some block reachable along several paths); distinct by descriptor.")
@@ -124,7 +125,10 @@ def dag(draw):
                 preds[j] = [0]
     order = draw(st.permutations(list(range(n))))
     values = [[draw(st.integers(0, 50)) for _ in range(nsrc)] for _ in range(4)]
-    return {'class': 'dag', 'nsrc': nsrc, 'preds': preds, 'order': list(order), 'values': values}
+    # some bursts change the sources many times before the simulator gets to run
+    repeats = [draw(st.sampled_from([1, 1, 2, 3 * nblocks + 2, 25])) for _ in range(4)]
+    return {'class': 'dag', 'nsrc': nsrc, 'preds': preds, 'order': list(order), 'values': values,
+            'repeats': repeats}
 
 
 def strategy(tier):
@@ -203,8 +207,11 @@ def execute(case):
             if circuit.error is not None or not circuit.is_ready():
                 break
             vec = burst if isinstance(burst, list) else [burst]
-            for s, v in zip(srcs, vec):
-                edzed.ExtEvent(s).send(v)
+            reps = case['repeats'][k] if cls == 'dag' and 'repeats' in case else 1
+            for r in range(reps - 1, -1, -1):
+                # 'reps' successive changes of every source without yielding; the last one is 'vec'
+                for s, v in zip(srcs, vec):
+                    edzed.ExtEvent(s).send(v + 1000 * r if cls == 'dag' else v)
             await harness.quiesce(loop)
             snapshot(f'burst {k}', vec)
         await sim.stop()
@@ -266,6 +273,8 @@ def execute(case):
         total = path_total(case['nsrc'], case['preds'])
         res.nontrivial = total > len(case['preds'])
         res.classes = ['acyclic within margin', f"paths/blocks {min(3, total // nblocks)}.x"]
+        if any(r > 2 for r in case.get('repeats', [])):
+            res.classes.append('burst with many changes of one source')
     else:
         res.nontrivial = required or settled
         res.classes = ['cyclic network' if cls == 'cyclic' else 'event feedback']
